@@ -1,6 +1,6 @@
 SPECIFICATION Spec
 CONSTANTS N = 5
  Rule = "safe"
-INVARIANTS StepBound Emit
+INVARIANTS StepBound MeasureInv Emit
 PROPERTIES Terminates SegDecreases
 CHECK_DEADLOCK FALSE
